@@ -175,8 +175,9 @@ TsClass(x) ==
     ELSE IF StrictTimestampShape(x.cp) /\ x.ts.ok THEN "yes"
     ELSE IF Cardinality({i \in DOMAIN x.cp : Digit(x.cp[i])}) < 8 THEN "no"
     ELSE "odd"
-InstLess(a, b) == a.sec < b.sec \/ (a.sec = b.sec /\ a.ns < b.ns)
-InstEq(a, b) == a.sec = b.sec /\ a.ns = b.ns
+Ns(a, dev) == IF "SubMicrosecondIgnored" \in dev THEN a.ns \div 1000 ELSE a.ns
+InstLess(a, b, dev) == a.sec < b.sec \/ (a.sec = b.sec /\ Ns(a, dev) < Ns(b, dev))
+InstEq(a, b, dev) == a.sec = b.sec /\ Ns(a, dev) = Ns(b, dev)
 
 (* ---- one comparison --------------------------------------------------------------- *)
 (* the type tests "report the type facts"; only IsPresent is defined for a missing Variable *)
@@ -213,7 +214,7 @@ ValueCompare(op, var, arg, dev) ==
          THEN LET cv == TsClass(var)  ca == TsClass(arg)
               IN IF cv = "no" \/ ca = "no" THEN NoMatch
                  ELSE IF cv = "yes" /\ ca = "yes"
-                      THEN B(Cmp(RelOf[op], InstLess(var.ts, arg.ts), InstEq(var.ts, arg.ts)))
+                      THEN B(Cmp(RelOf[op], InstLess(var.ts, arg.ts, dev), InstEq(var.ts, arg.ts, dev)))
                  ELSE Open
     ELSE Open                                            (* not an operator of the language *)
 
